@@ -39,6 +39,7 @@ def run(ctx):
                    "public key package (threshold must be known).")
     ctx.undecided = "that the repaired value equals f(identifier) (interpolation arithmetic)."
     ctx.floor = 14
+    refusal_inventory(ctx)
     P = ctx.prog
     wrappers(ctx, ['keys::repairable::repair_share_part1', 'keys::repairable::repair_share_part2', 'keys::repairable::repair_share_part3'])
     f = ctx.anchor(RP + "repair_share_part1")
